@@ -171,14 +171,30 @@ def run(chk) -> None:
         bad = ""
         fp = []
         table = []
+        consts = {}
+        for st_ in mrp.tree.body:
+            tg_ = st_.targets[0] if isinstance(st_, ast.Assign) and len(st_.targets) == 1 else (st_.target if isinstance(st_, ast.AnnAssign) else None)
+            if isinstance(tg_, ast.Name) and isinstance(getattr(st_, "value", None), ast.Constant):
+                consts[tg_.id] = st_.value.value
         for kind, expr, site in uses:
             seq = []
             for k, v in enumerate(vals, start=1):
-                env = {var: v, "self": Record(cname, strategies=[0] * 8)}
+                env = {**consts, var: v, "self": Record(cname, strategies=[0] * 8)}
                 try:
                     seq.append(Interp().eval(expr, env))
                 except (Unsupported, Raised) as e:
                     raise AnchorError(f"C06.R1: cannot evaluate `{ast.unparse(expr)}` in {cname}.__call__: {e}")
+            # an exponent / multiplier keeps growing with the retry number ("all retry counts"): no plateau for large k. A subscript
+            # index is exempt: a chain documents that its last strategy is reused.
+            if kind != "subscript" and "subscript" not in kind and "index" not in kind:
+                try:
+                    big = [Interp().eval(expr, {**consts, var: kk, "self": Record(cname, strategies=[0] * 8)}) for kk in (63, 64, 65, 66, 1000, 1001)]
+                except (Unsupported, Raised) as e:
+                    raise AnchorError(f"C06.R1: cannot evaluate `{ast.unparse(expr)}` in {cname}.__call__ for large retry numbers: {e}")
+                steps = [b_ - a_ for a_, b_ in zip(big, big[1:])]
+                grows = steps[0] == steps[1] == steps[2] == steps[4] and steps[0] > 0
+                chk.ob("C06.R1", f"{cname}: the {kind} `{ast.unparse(expr)[:40]}` keeps following the retry number for large counts (no cap)", grows, m=mrp, node=site, fn=call, instance=f"index-uncapped:{kind}",
+                       reason=f"for retry numbers 63, 64, 65, 66, 1000, 1001 it takes {big}: from some count on every retry gets the same delay, below what the strategy documents")
             table.append({"kind": kind, "expr": ast.unparse(expr), "values_k1_to_k5": seq})
             fp.append(",".join(map(str, seq)))
             if seq != [0, 1, 2, 3, 4]:
